@@ -212,3 +212,26 @@ Example C20_example_no_key : no_key (sd (init ex_cfg) B) (rc A 4 0 7 (App 9)).
 Proof.
   intros g Hg. vm_compute in Hg. destruct Hg as [<- | [<- | []]]; vm_compute; intros _ _ H; discriminate.
 Qed.
+
+(* a long first epoch (2^16 + 300 records before the update): records of the OLD epoch that arrive after
+   the peer processed the KeyUpdate - an application record written while the ACK was outstanding and
+   the retransmitted KeyUpdate - are expanded against the old epoch's own high-water mark, so they are
+   delivered / acknowledged again, and UpdateKeys returns *)
+Definition ex_long_cfg : config := cfg 64 3 7 65836 2 [0; 1] [65835].
+Definition ex_long_ops : list op :=
+  [ OpUpdate A false 0;                                   (* KeyUpdate 3 in (3,65836) *)
+    OpDeliver B (rc A 3 3 65836 (KU 3 false));            (* B: receive epoch 4; its ACK is lost *)
+    OpWrite A 1;                                          (* (3,65837): still the old epoch *)
+    OpTimer A;                                            (* retransmission in (3,65838) *)
+    OpDeliver B (rc A 3 3 65838 (KU 3 false));            (* acknowledged again: ACK [(3,65838)] *)
+    OpDeliver A (rc B 3 3 3 (Ack [(3, 65838)]));          (* A: send epoch 4, call 0 returns *)
+    OpWrite A 2;                                          (* (4,0) *)
+    OpDeliver B (rc A 4 0 0 (App 2));
+    OpDeliver B (rc A 3 3 65837 (App 1)) ].               (* old epoch after new epoch: delivered *)
+
+Example C20_example_long_epoch :
+  authentic (init ex_long_cfg) ex_long_ops /\
+  (let '(st, evs) := exec (init ex_long_cfg) ex_long_ops in
+   (ev_read evs, ev_done evs, (w_epoch (sd st A), r_epoch (sd st B))))
+  = ([(B, 2); (B, 1)], [(A, 0)], (4, 4)).
+Proof. split; [vm_compute; repeat split; tauto | vm_compute; reflexivity]. Qed.
